@@ -170,7 +170,7 @@ func parseExpr(src string) (*SExpr, error) {
 
 func (p *sparser) expr(minPrec int) (*SExpr, error) {
 	// quantifiers bind loosest and extend to the right
-	if t := p.peek(); t.kind == "id" && (t.text == "forall" || t.text == "exists") {
+	if t := p.peek(); t.kind == "id" && (t.text == "forall" || t.text == "exists") && p.toks[p.p+1].kind == "id" {
 		p.next()
 		var vars []QVar
 		for {
@@ -382,19 +382,20 @@ type LoopSpec struct {
 }
 
 type FuncSpec struct {
-	Name      string // e.g. "(*CacheLRU).Less", "CompareLex", "NewSugarDB$7"
-	Pkg       string // package path
-	Props     []string
-	Flags     map[string]bool
-	Requires  []*Clause
-	Ensures   []*Clause
-	Modifies  []string // raw targets; nil = unspecified (treated as "*"), ["nothing"] = empty
-	HasMod    bool
-	Preserves []string
-	Loops     map[int]*LoopSpec
-	Asserts   []*Clause
-	File      string
-	Line      int
+	Name        string // e.g. "(*CacheLRU).Less", "CompareLex", "NewSugarDB$7"
+	Pkg         string // package path
+	Props       []string
+	Flags       map[string]bool
+	Requires    []*Clause
+	Ensures     []*Clause
+	Modifies    []string // raw targets; nil = unspecified (treated as "*"), ["nothing"] = empty
+	HasMod      bool
+	Preserves   []string
+	Uses        []string // global heap invariants assumed on entry and re-established on exit
+	Loops       map[int]*LoopSpec
+	Asserts     []*Clause
+	File        string
+	Line        int
 	ResultNames []string
 }
 
@@ -422,22 +423,23 @@ type FieldBinding struct {
 }
 
 type Contracts struct {
-	Funcs    map[string]*FuncSpec // key: pkgpath + "." + name
-	Specs    map[string]*SpecFunc
-	Types    map[string]*TypeInv
-	Ghosts   map[string]string // $name -> sort text
-	Axioms   []*Clause
-	Fields   map[string]*FieldBinding
-	Order    []string
+	Funcs   map[string]*FuncSpec // key: pkgpath + "." + name
+	Specs   map[string]*SpecFunc
+	Types   map[string]*TypeInv
+	Ghosts  map[string]string // $name -> sort text
+	Axioms  []*Clause
+	Fields  map[string]*FieldBinding
+	Globals map[string]*Clause
+	Order   []string
 }
 
 func newContracts() *Contracts {
-	return &Contracts{Funcs: map[string]*FuncSpec{}, Specs: map[string]*SpecFunc{}, Types: map[string]*TypeInv{}, Ghosts: map[string]string{}, Fields: map[string]*FieldBinding{}}
+	return &Contracts{Funcs: map[string]*FuncSpec{}, Specs: map[string]*SpecFunc{}, Types: map[string]*TypeInv{}, Ghosts: map[string]string{}, Fields: map[string]*FieldBinding{}, Globals: map[string]*Clause{}}
 }
 
 var clauseKeywords = map[string]bool{"requires": true, "ensures": true, "modifies": true, "preserves": true, "decreases": true,
 	"loop": true, "invariant": true, "assert": true, "func": true, "spec": true, "ghost": true, "axiom": true, "type": true,
-	"iface": true, "field": true, "end": true, "flags": true, "props": true, "lemma": true, "results": true}
+	"iface": true, "field": true, "end": true, "flags": true, "props": true, "lemma": true, "results": true, "global": true, "uses": true}
 
 type rawLine struct {
 	text string
@@ -560,6 +562,21 @@ func parseContractText(c *Contracts, pkgPath, file string, lines []rawLine) erro
 					cur.Modifies = append(cur.Modifies, t)
 				}
 			}
+		case "global":
+			cl, err := mkClause(kw, rest, s.line)
+			if err != nil {
+				return err
+			}
+			if cl.Label == "" {
+				return fmt.Errorf("%s:%d: global needs a name: global name: expr", file, s.line)
+			}
+			c.Globals[pkgPath+"."+cl.Label] = cl
+			cur, curLoop, curType = nil, nil, nil
+		case "uses":
+			if cur == nil {
+				return fmt.Errorf("%s:%d: uses outside func", file, s.line)
+			}
+			cur.Uses = append(cur.Uses, strings.Fields(strings.ReplaceAll(rest, ",", " "))...)
 		case "preserves":
 			if cur == nil {
 				return fmt.Errorf("%s:%d: preserves outside func", file, s.line)
